@@ -108,8 +108,8 @@ def run_property(pid, tier, workers=None, replay=None):
             print("VIOLATION property=%s replay=%s" % (pid, path))
         return 1
     if acc.inconclusive:
-        for r in acc.inconclusive[:10]:
-            print("INCONCLUSIVE property=%s reason=%s" % (pid, r[:600]))
+        for r in acc.inconclusive[:4]:
+            print("INCONCLUSIVE property=%s reason=%s" % (pid, r[-700:].replace("\n", " | ")))
         return 2
     return 0
 
